@@ -28,7 +28,12 @@ func VPH_C30_floor() {
 	cert, key, ca := vpCertFiles()
 	tc := &TLSConfig{Enabled: true, CertFile: cert, KeyFile: key,
 		MinVersion: vpU16("minversion"), MaxVersion: vpU16("maxversion"),
-		ClientAuth: tls.ClientAuthType(vpChoose("clientauth", 0, 4))}
+		ClientAuth: tls.ClientAuthType(vpChoose("clientauth", 0, 4)),
+		// the remaining switches of the configuration: none of them may weaken what is verified
+		InsecureSkipVerify: vpBool("insecure-skip-verify"), PreferServerCipherSuites: vpBool("prefer-server-suites")}
+	if vpBool("explicit-suites") {
+		tc.CipherSuites = []uint16{tls.TLS_ECDHE_RSA_WITH_AES_128_GCM_SHA256}
+	}
 	if vpBool("with-ca") {
 		tc.CAFile = ca
 	}
